@@ -70,6 +70,22 @@ func cmdVerify(args []string) {
 		}
 		fmt.Printf("%-70s paths=%d exits=%d obls=%d abstracted=%v inlined=%d (%.2fs)\n", shortKey(k), r.Paths, r.Exits, len(r.Obls), r.Abstracted, len(r.Inlined), r.Secs)
 		all = append(all, r.Obls...)
+		if fc := w.cs.Funcs[k]; fc.Implements != "" {
+			if d := w.ifaceAsContract(fc); d != nil {
+				r2 := w.verifyFunc(fn, d, []string{"C08"}, false)
+				if r2.Rejected != "" {
+					fmt.Printf("REJECTED %s@iface: %s\n", shortKey(k), r2.Rejected)
+				} else {
+					for _, o := range r2.Obls {
+						if !strings.HasPrefix(o.Kind, "safety:") && o.Kind != "cover" {
+							all = append(all, o)
+						}
+					}
+				}
+			} else {
+				fmt.Printf("ORPHAN implements %s: no such iface contract\n", fc.Implements)
+			}
+		}
 	}
 	var stats SolveStats
 	t1 := time.Now()
